@@ -20,13 +20,18 @@ import ModbusVerif.Lemmas.LifecycleLemmas
      which the oracle answers FROM THE VALUE of the index (`probeVal l`: the element `l[i]` of the
      client list, `unk` outside the list). So the leaf is re-bound from the list and the current `i`
      before every round; nothing else of the generated term is changed (`stripProbe` removes the
-     pseudo-calls again: `stripProbe_withProbe` on the term at hand). The pseudo-calls are logged
+     pseudo-calls again: `strip_hGs` on the term at hand). The pseudo-calls are logged
      in `Res.calls` (they record which indexes were inspected); `realCalls` filters them out.
      This is faithful as long as the list is not assigned between two rounds: the loop lemma
      shows that the round that assigns `ms.tcpClients` / `ms.tcpClients[i]` ends with `break`.
-  4. the removal loop: one round (`rem_round_*`), the whole loop by induction on the number of
-     remaining elements (`rem_loop`), the reading of its final environment as a list
-     (`clientsAfter`) = `Lifecycle.swapRemove`.
+  4. `handleTCPClient`: the instrumented term `hGs` and its parts (`hGs_eq`: one-shot `switch` loop
+     `dispBody`, then `tailPart` = bound, index, removal loop `remBody`, `sock.Close`, `return`);
+     the removal loop: one round (`rem_round_miss` / `_hit` / `_end`), the whole loop by induction
+     on the number of remaining elements (`rem_loop`: any entry environment satisfying `RemInv`,
+     any call history, every fuel ≥ remaining + 9).
+  5. the reading of the final environment as a list (`clientsAfter`) = `Lifecycle.swapRemove`
+     (`clientsAfter_of_RemOut`); the part after the dispatch (`handle_tail`) and the whole function
+     given the run of its dispatch part (`handle_compose`, `handle_final`).
 -/
 set_option linter.unusedSimpArgs false
 set_option linter.unusedVariables false
@@ -142,14 +147,17 @@ theorem realCalls_append (p : String) (a b : Calls) :
 
 /-- the probes of the indexes `k, k+1, …` (`cnt` of them) -/
 def probeCalls (probe : String) (k cnt : Nat) : Calls :=
-  (List.range' k cnt).map (fun j => (probe, [Val.int (j : Int)]))
+  (List.range' k cnt).map (fun (j : Nat) => (probe, [Val.int (j : Int)]))
 
 theorem probeCalls_succ (p : String) (k cnt : Nat) :
     probeCalls p k (cnt + 1) = (p, [Val.int (k : Int)]) :: probeCalls p (k + 1) cnt := by
   simp [probeCalls, List.range'_succ]
 
 theorem realCalls_probeCalls (p : String) (k cnt : Nat) : realCalls p (probeCalls p k cnt) = [] := by
-  simp [realCalls, probeCalls]
+  simp only [realCalls, probeCalls, List.filter_eq_nil_iff, List.mem_map]
+  rintro ⟨a, b⟩ ⟨x, _, hx⟩
+  cases hx
+  simp
 
 /-- number of bindings of key `x` in an environment. `Env.write` only ever prepends, so this
     counts the assignments / bindings made to `x` (plus the initial bindings). -/
@@ -159,5 +167,370 @@ theorem writes_write (x k : String) (v : Val) (env : Env) :
     writes x (Env.write env k v) = writes x env + (if k = x then 1 else 0) := by
   simp only [writes, Env.write, List.filter_cons]
   by_cases h : k = x <;> simp [h]
+
+
+/-! ### 4. `handleTCPClient`: the instrumented term, its parts -/
+
+/-- `handleTCPClient` with the leaf `ms.tcpClients[i]` re-bound from the probe `#ms.tcpClients[i]`
+    (argument: the current value of `i`) at the head of every loop round -/
+def hGs : GStmt := withProbe "ms.tcpClients[i]" "#ms.tcpClients[i]" "i" gs_ModbusServer_handleTCPClient
+
+/-- the inserted pseudo-call -/
+def probeStmt : GStmt := .bindCall ["ms.tcpClients[i]"] "#ms.tcpClients[i]" [.var "i" .int]
+
+/-- the `switch ms.transportType` (body of its one-shot loop), with the probe -/
+def dispBody : GStmt :=
+  (.seq probeStmt (.seq (.ite (.cmp "==" (.var "ms.transportType" .uint) (.lit (4) .uint)) (.bindCall [] "ms.handleTransport" [(.call "newTCPTransport(sock, ms.conf.Timeout, ms.conf.Logger)" .other), (.call "sock.RemoteAddr().String()" .other), (.call "\"\"" .other)]) (.ite (.cmp "==" (.var "ms.transportType" .uint) (.lit (5) .uint)) (.seq (.bindCall ["tlsSock", "clientRole", "err"] "ms.startTLS" [(.var "sock" .other)]) (.ite (.cmp "!=" (.var "err" .other) (.var "nil" .other)) .skip (.bindCall [] "ms.handleTransport" [(.call "newTCPTransport(tlsSock, ms.conf.Timeout, ms.conf.Logger)" .other), (.call "sock.RemoteAddr().String()" .other), (.var "clientRole" .other)]))) .skip)) .brk))
+
+/-- one round of the removal loop, with the probe -/
+def remBody : GStmt :=
+  (.seq probeStmt (.ite (.cmp "<" (.var "i" .int) (.var "#len(ms.tcpClients)" .int)) (.seq (.ite (.cmp "==" (.var "ms.tcpClients[i]" .other) (.var "sock" .other)) (.seq (.assign "ms.tcpClients[i]" (.var "ms.tcpClients[len(ms.tcpClients)-1]" .other)) (.seq (.assign "ms.tcpClients" (.call "ms.tcpClients[:len(ms.tcpClients)-1]" .other)) .brk)) .skip) (.assign "i" (.bin "+" .int (.var "i" .int) (.lit 1 .int)))) .brk))
+
+/-- the instrumented term, literally (checked against the generated term by `rfl`) -/
+theorem hGs_eq : hGs = .seq (.loop dispBody)
+    (.seq (.seq (.assign "#len(ms.tcpClients)" (.var "len(ms.tcpClients)" .int))
+            (.seq (.assign "i" (.lit 0 .int)) (.loop remBody)))
+          (.seq (.bindCall [] "sock.Close" []) .ret)) := by rfl
+
+theorem strip_hGs : stripProbe "#ms.tcpClients[i]" hGs = gs_ModbusServer_handleTCPClient := by rfl
+
+theorem remBody_loopFree : loopFree remBody = true ∧ depth remBody = 7 := by decide
+theorem dispBody_loopFree : loopFree dispBody = true ∧ depth dispBody = 7 := by decide
+
+/-- the probe is answered from the client list `l` and the VALUE of the index; `ms.startTLS`
+    returns `tls` = `[tlsSock, clientRole, err]`; `ms.handleTransport` and `sock.Close` are
+    performed (and logged) -/
+def handleOracle (l : List ConnId) (tls : List Val) : Oracle := fun f args =>
+  if f = "#ms.tcpClients[i]" then some [probeVal l (args.headD .unk)]
+  else if f = "ms.handleTransport" then some []
+  else if f = "ms.startTLS" then some tls
+  else if f = "sock.Close" then some []
+  else none
+
+/-- the leaf `ms.tcpClients[len(ms.tcpClients)-1]`: the last element (`unk` for an empty list: Go
+    would panic; never read then) -/
+def lastVal (l : List ConnId) : Val :=
+  match l.getLast? with
+  | some x => .int (x : Nat)
+  | none => .unk
+
+/-- what the removal loop needs of its environment when a round starts with `i = k`: the bound,
+    the socket, the two leaves of the swap-remove -/
+structure RemInv (l : List ConnId) (c : ConnId) (k : Nat) (env : Env) : Prop where
+  hi : Env.read? env "i" = some (.int (k : Int))
+  hlen : Env.read? env "#len(ms.tcpClients)" = some (.int (l.length : Int))
+  hsock : Env.read? env "sock" = some (.int (c : Nat))
+  hlast : Env.read? env "ms.tcpClients[len(ms.tcpClients)-1]" = some (lastVal l)
+  hslice : Env.read? env "ms.tcpClients[:len(ms.tcpClients)-1]" =
+    some (.sym "ms.tcpClients[:len(ms.tcpClients)-1]")
+
+/-- a round at an index holding another socket: the leaf is bound to `l[k]`, `i` is incremented -/
+theorem rem_round_miss (l : List ConnId) (tls : List Val) (c : ConnId) (k : Nat) (env : Env) (cs : Calls)
+    (hn : l.length < 2^62) (hk : k < l.length) (hne : l[k] ≠ c) (inv : RemInv l c k env) :
+    execFrom (handleOracle l tls) 8 remBody env cs =
+      ⟨Env.write (Env.write env "ms.tcpClients[i]" (.int (l[k] : Nat))) "i" (.int ((k + 1 : Nat) : Int)),
+        .fell, cs ++ [("#ms.tcpClients[i]", [.int (k : Int)])]⟩ := by
+  have h1 := inv.hi
+  have h2 := inv.hlen
+  have h3 := inv.hsock
+  have hp := probeVal_lt l k hk
+  have hlt : (k : Int) < (l.length : Int) := by omega
+  have hne' : ¬ (((l[k] : Nat) : Int) = ((c : Nat) : Int)) := fun h => hne (Int.ofNat_inj.mp h)
+  have hw : wrap .int ((k : Int) + 1) = ((k + 1 : Nat) : Int) := by
+    rw [wrap_int (by omega) (by omega)]; omega
+  go_eval_nowrap [remBody, probeStmt, handleOracle, h1, h2, h3, hp, hlt, hne', hw]
+
+
+/-- a round at an index holding `c`: the two assignments, in that order, then `break` -/
+theorem rem_round_hit (l : List ConnId) (tls : List Val) (c : ConnId) (k : Nat) (env : Env) (cs : Calls)
+    (hk : k < l.length) (he : l[k] = c) (inv : RemInv l c k env) :
+    execFrom (handleOracle l tls) 8 remBody env cs =
+      ⟨Env.write (Env.write (Env.write env "ms.tcpClients[i]" (.int (l[k] : Nat)))
+          "ms.tcpClients[i]" (lastVal l)) "ms.tcpClients" (.sym "ms.tcpClients[:len(ms.tcpClients)-1]"),
+        .broke, cs ++ [("#ms.tcpClients[i]", [.int (k : Int)])]⟩ := by
+  have h1 := inv.hi
+  have h2 := inv.hlen
+  have h3 := inv.hsock
+  have h4 := inv.hlast
+  have h5 := inv.hslice
+  have hp := probeVal_lt l k hk
+  have hlt : (k : Int) < (l.length : Int) := by omega
+  have he' : (((l[k] : Nat) : Int) = ((c : Nat) : Int)) := by rw [he]
+  go_eval_nowrap [remBody, probeStmt, handleOracle, h1, h2, h3, h4, h5, hp, hlt, he']
+
+/-- the round with `i = len`: the loop test fails, `break`; nothing assigned (the probe, out of
+    range, binds `unk`, which is never read) -/
+theorem rem_round_end (l : List ConnId) (tls : List Val) (c : ConnId) (env : Env) (cs : Calls)
+    (inv : RemInv l c l.length env) :
+    execFrom (handleOracle l tls) 8 remBody env cs =
+      ⟨Env.write env "ms.tcpClients[i]" .unk, .broke,
+        cs ++ [("#ms.tcpClients[i]", [.int (l.length : Int)])]⟩ := by
+  have h1 := inv.hi
+  have h2 := inv.hlen
+  have hp := probeVal_ge l l.length (Nat.le_refl _)
+  go_eval_nowrap [remBody, probeStmt, handleOracle, h1, h2, hp, Int.lt_irrefl]
+
+/-- what the removal loop, entered with `i = k`, leaves behind -/
+def RemOut (l : List ConnId) (c : ConnId) (k : Nat) (env env' : Env) (cnt : Nat) : Prop :=
+  match l.findIdx? (· == c) with
+  | some p =>
+    k ≤ p ∧ cnt = p - k + 1 ∧ Env.read? env' "i" = some (.int (p : Int)) ∧
+      Env.read? env' "ms.tcpClients[i]" = some (lastVal l) ∧
+      Env.read? env' "ms.tcpClients" = some (.sym "ms.tcpClients[:len(ms.tcpClients)-1]") ∧
+      writes "ms.tcpClients" env' = writes "ms.tcpClients" env + 1 ∧
+      writes "ms.tcpClients[i]" env' = writes "ms.tcpClients[i]" env + cnt + 1
+  | none =>
+    cnt = l.length - k + 1 ∧ Env.read? env' "i" = some (.int (l.length : Int)) ∧
+      Env.read? env' "ms.tcpClients" = Env.read? env "ms.tcpClients" ∧
+      writes "ms.tcpClients" env' = writes "ms.tcpClients" env ∧
+      writes "ms.tcpClients[i]" env' = writes "ms.tcpClients[i]" env + cnt
+
+theorem findIdx?_none_of_all_ne (l : List ConnId) (c : ConnId)
+    (h : ∀ j (hj : j < l.length), l[j] ≠ c) : l.findIdx? (· == c) = none := by
+  rw [List.findIdx?_eq_none_iff]
+  intro x hx
+  obtain ⟨j, hj, rfl⟩ := List.getElem_of_mem hx
+  simpa using h j hj
+
+theorem findIdx?_some_of_first (l : List ConnId) (c : ConnId) (k : Nat) (hk : k < l.length)
+    (he : l[k] = c) (hpre : ∀ j (hj : j < l.length), j < k → l[j] ≠ c) :
+    l.findIdx? (· == c) = some k := by
+  rw [List.findIdx?_eq_some_iff_getElem]
+  refine ⟨hk, by simpa using he, fun j hjk => ?_⟩
+  simpa using hpre j (by omega) hjk
+
+/-- **the removal loop**, entered with `i = k`, no element before `k` being `c`: it falls through
+    (never returns, never gets stuck), performs no real call, probes the indexes `k, k+1, …`
+    (`cnt` of them) and leaves `RemOut` -/
+theorem rem_loop (l : List ConnId) (tls : List Val) (c : ConnId) (hn : l.length < 2^62) :
+    ∀ (d k : Nat) (env : Env) (cs : Calls), k + d = l.length → RemInv l c k env →
+      (∀ j (hj : j < l.length), j < k → l[j] ≠ c) → ∀ fuel, d + 9 ≤ fuel →
+      ∃ env' cnt, execFrom (handleOracle l tls) fuel (.loop remBody) env cs =
+          ⟨env', .fell, cs ++ probeCalls "#ms.tcpClients[i]" k cnt⟩ ∧ RemOut l c k env env' cnt := by
+  intro d
+  induction d with
+  | zero =>
+    intro k env cs hkd inv hpre fuel hf
+    have hk : k = l.length := by omega
+    subst hk
+    obtain ⟨f, rfl⟩ : ∃ f, fuel = f + 1 := ⟨fuel - 1, by omega⟩
+    have hb := execFrom_ge _ (rem_round_end l tls c env cs inv) (fun h => nomatch h) f (by omega)
+    refine ⟨Env.write env "ms.tcpClients[i]" .unk, 1, ?_, ?_⟩
+    · rw [execFrom_loop_of_broke _ hb]; rfl
+    · have hnone := findIdx?_none_of_all_ne l c (fun j hj => hpre j hj hj)
+      simp only [RemOut, hnone, Nat.sub_self, Nat.zero_add, true_and]
+      refine ⟨?_, ?_, ?_, ?_⟩
+      · simp only [read?_write, String.reduceEq, ↓reduceIte]; exact inv.hi
+      · simp only [read?_write, String.reduceEq, ↓reduceIte]
+      · simp only [writes_write, String.reduceEq, ↓reduceIte, Nat.add_zero]
+      · simp only [writes_write, ↓reduceIte]
+  | succ d ih =>
+    intro k env cs hkd inv hpre fuel hf
+    have hk : k < l.length := by omega
+    obtain ⟨f, rfl⟩ : ∃ f, fuel = f + 1 := ⟨fuel - 1, by omega⟩
+    by_cases he : l[k] = c
+    · have hb := execFrom_ge _ (rem_round_hit l tls c k env cs hk he inv) (fun h => nomatch h) f (by omega)
+      refine ⟨Env.write (Env.write (Env.write env "ms.tcpClients[i]" (.int (l[k] : Nat)))
+          "ms.tcpClients[i]" (lastVal l)) "ms.tcpClients" (.sym "ms.tcpClients[:len(ms.tcpClients)-1]"),
+        1, ?_, ?_⟩
+      · rw [execFrom_loop_of_broke _ hb]; rfl
+      · have hsome := findIdx?_some_of_first l c k hk he hpre
+        simp only [RemOut, hsome, Nat.sub_self, Nat.zero_add, Nat.le_refl, true_and]
+        refine ⟨?_, ?_, ?_, ?_, ?_⟩
+        · simp only [read?_write, String.reduceEq, ↓reduceIte]; exact inv.hi
+        · simp only [read?_write, String.reduceEq, ↓reduceIte]
+        · simp only [read?_write, String.reduceEq, ↓reduceIte]
+        · simp only [writes_write, String.reduceEq, ↓reduceIte, Nat.add_zero]
+        · simp only [writes_write, String.reduceEq, ↓reduceIte, Nat.add_zero]
+    · have hb := execFrom_ge _ (rem_round_miss l tls c k env cs hn hk he inv) (fun h => nomatch h) f (by omega)
+      have inv' : RemInv l c (k + 1)
+          (Env.write (Env.write env "ms.tcpClients[i]" (.int (l[k] : Nat))) "i" (.int ((k + 1 : Nat) : Int))) := by
+        constructor
+        · simp only [read?_write, ↓reduceIte]
+        · simp only [read?_write, String.reduceEq, ↓reduceIte]; exact inv.hlen
+        · simp only [read?_write, String.reduceEq, ↓reduceIte]; exact inv.hsock
+        · simp only [read?_write, String.reduceEq, ↓reduceIte]; exact inv.hlast
+        · simp only [read?_write, String.reduceEq, ↓reduceIte]; exact inv.hslice
+      have hpre' : ∀ j (hj : j < l.length), j < k + 1 → l[j] ≠ c := by
+        intro j hj hjk
+        by_cases hjk' : j = k
+        · subst hjk'; exact he
+        · exact hpre j hj (by omega)
+      obtain ⟨env', cnt, hrun, hout⟩ := ih (k + 1) _ (cs ++ [("#ms.tcpClients[i]", [.int (k : Int)])])
+        (by omega) inv' hpre' f (by omega)
+      refine ⟨env', cnt + 1, ?_, ?_⟩
+      · rw [execFrom_loop_of_fell _ hb, hrun, probeCalls_succ, List.append_assoc]; rfl
+      · revert hout
+        simp only [RemOut]
+        cases l.findIdx? (· == c) with
+        | none =>
+          simp only [read?_write, writes_write, String.reduceEq, ↓reduceIte, Nat.add_zero]
+          rintro ⟨h1, h2, h3, h4, h5⟩
+          exact ⟨by omega, h2, h3, h4, by omega⟩
+        | some p =>
+          simp only [read?_write, writes_write, String.reduceEq, ↓reduceIte, Nat.add_zero]
+          rintro ⟨h0, h1, h2, h3, h4, h5, h6⟩
+          exact ⟨by omega, by omega, h2, h3, h4, h5, by omega⟩
+
+/-! ### 5. reading the final environment as a list; the part after the dispatch -/
+
+/-- `RemOut` only looks at the keys `ms.tcpClients`, `ms.tcpClients[i]` of the entry environment -/
+theorem RemOut_congr (l : List ConnId) (c : ConnId) (k : Nat) (env₁ env₂ env' : Env) (cnt : Nat)
+    (h1 : Env.read? env₁ "ms.tcpClients" = Env.read? env₂ "ms.tcpClients")
+    (h2 : writes "ms.tcpClients" env₁ = writes "ms.tcpClients" env₂)
+    (h3 : writes "ms.tcpClients[i]" env₁ = writes "ms.tcpClients[i]" env₂)
+    (h : RemOut l c k env₁ env' cnt) : RemOut l c k env₂ env' cnt := by
+  revert h
+  simp only [RemOut, h1, h2, h3]
+  exact id
+
+/-- the client list denoted by the environment after the removal part, `l` being the list before:
+    `ms.tcpClients` not assigned: `l`; assigned the leaf `ms.tcpClients[:len(ms.tcpClients)-1]`:
+    `l` with the element at (the final value of) `i` replaced by the final value of
+    `ms.tcpClients[i]`, then without its last element. (The element assignment does not change the
+    length, so `len(ms.tcpClients)` inside the slice text is still `l.length`.) -/
+def clientsAfter (l : List ConnId) (env : Env) : Option (List ConnId) :=
+  if Env.read? env "ms.tcpClients" = some (.sym "ms.tcpClients[:len(ms.tcpClients)-1]") then
+    match Env.read? env "i", Env.read? env "ms.tcpClients[i]" with
+    | some (.int i), some (.int v) =>
+      if 0 ≤ i ∧ 0 ≤ v then some ((l.set i.toNat v.toNat).dropLast) else none
+    | _, _ => none
+  else if Env.read? env "ms.tcpClients" = none then some l
+  else none
+
+/-- **the removal loop = `Lifecycle.swapRemove`** -/
+theorem clientsAfter_of_RemOut (l : List ConnId) (c : ConnId) (env env' : Env) (cnt : Nat)
+    (hfield : Env.read? env "ms.tcpClients" = none) (h : RemOut l c 0 env env' cnt) :
+    clientsAfter l env' = some (swapRemove l c) := by
+  revert h
+  simp only [RemOut, swapRemove]
+  cases hfi : l.findIdx? (· == c) with
+  | none =>
+    rintro ⟨_, _, h3, _, _⟩
+    simp [clientsAfter, h3, hfield]
+  | some p =>
+    rintro ⟨_, _, h2, h3, h4, _, _⟩
+    have hp : p < l.length := by
+      obtain ⟨hp, _⟩ := List.findIdx?_eq_some_iff_getElem.mp hfi
+      exact hp
+    cases hl : l.getLast? with
+    | none =>
+      have : l = [] := List.getLast?_eq_none_iff.mp hl
+      subst this
+      simp at hp
+    | some x =>
+      have hlv : lastVal l = .int (x : Nat) := by simp only [lastVal, hl]
+      rw [hlv] at h3
+      simp only [clientsAfter, h4, h2, h3, ↓reduceIte]
+      simp
+
+/-- `#len := len(ms.tcpClients); i := 0; loop; sock.Close(); return` -/
+def tailPart : GStmt :=
+  (.seq (.seq (.assign "#len(ms.tcpClients)" (.var "len(ms.tcpClients)" .int))
+            (.seq (.assign "i" (.lit 0 .int)) (.loop remBody)))
+        (.seq (.bindCall [] "sock.Close" []) .ret))
+
+theorem hGs_eq' : hGs = .seq (.loop dispBody) tailPart := hGs_eq
+
+/-- the part of `handleTCPClient` after the dispatch, from ANY environment in which the leaves of
+    the removal part denote the list `l` and the socket `c`: the loop inspects the indexes
+    `0 … p` (p = first index holding `c`) resp. `0 … len`, assigns as `RemOut` says, then
+    `sock.Close()` is called and the function returns. -/
+theorem handle_tail (l : List ConnId) (tls : List Val) (c : ConnId) (hn : l.length < 2^62)
+    (env : Env) (cs : Calls)
+    (hlen : Env.read? env "len(ms.tcpClients)" = some (.int (l.length : Int)))
+    (hsock : Env.read? env "sock" = some (.int (c : Nat)))
+    (hlast : Env.read? env "ms.tcpClients[len(ms.tcpClients)-1]" = some (lastVal l))
+    (hslice : Env.read? env "ms.tcpClients[:len(ms.tcpClients)-1]" =
+      some (.sym "ms.tcpClients[:len(ms.tcpClients)-1]"))
+    (fuel : Nat) (hf : l.length + 12 ≤ fuel) :
+    ∃ env' cnt, execFrom (handleOracle l tls) fuel tailPart env cs =
+        ⟨env', .returned, cs ++ probeCalls "#ms.tcpClients[i]" 0 cnt ++ [("sock.Close", [])]⟩ ∧
+      RemOut l c 0 env env' cnt := by
+  obtain ⟨g, rfl⟩ : ∃ g, fuel = (g + 3) + 1 := ⟨fuel - 4, by omega⟩
+  have inv : RemInv l c 0 (Env.write (Env.write env "#len(ms.tcpClients)" (.int (l.length : Int)))
+      "i" (.int 0)) := by
+    constructor
+    · simp only [read?_write, ↓reduceIte]; rfl
+    · simp only [read?_write, String.reduceEq, ↓reduceIte]
+    · simp only [read?_write, String.reduceEq, ↓reduceIte]; exact hsock
+    · simp only [read?_write, String.reduceEq, ↓reduceIte]; exact hlast
+    · simp only [read?_write, String.reduceEq, ↓reduceIte]; exact hslice
+  obtain ⟨env', cnt, hrun, hout⟩ := rem_loop l tls c hn l.length 0 _ cs (by omega) inv
+    (fun j hj h0 => absurd h0 (Nat.not_lt_zero j)) (g + 1) (by omega)
+  refine ⟨env', cnt, ?_, ?_⟩
+  · have ha : execFrom (handleOracle l tls) (g + 3)
+        (.seq (.assign "#len(ms.tcpClients)" (.var "len(ms.tcpClients)" .int))
+          (.seq (.assign "i" (.lit 0 .int)) (.loop remBody))) env cs =
+        ⟨env', .fell, cs ++ probeCalls "#ms.tcpClients[i]" 0 cnt⟩ := by
+      rw [← hrun]
+      simp only [execFrom_seq, execFrom_assign, panics_var, panics_lit, eval_var, eval_lit, hlen,
+        eval_var_some, seqK_fell, Bool.false_eq_true, ↓reduceIte]
+    rw [tailPart, execFrom_seq_of_fell _ _ ha]
+    go_eval [handleOracle]
+  · refine RemOut_congr l c 0 _ env env' cnt ?_ ?_ ?_ hout
+    · simp only [read?_write, String.reduceEq, ↓reduceIte]
+    · simp only [writes_write, String.reduceEq, ↓reduceIte, Nat.add_zero]
+    · simp only [writes_write, String.reduceEq, ↓reduceIte, Nat.add_zero]
+
+/-- the whole (instrumented) function, given the run of its dispatch part -/
+theorem handle_compose (l : List ConnId) (tls : List Val) (c : ConnId) (hn : l.length < 2^62)
+    (env0 envD : Env) (csD : Calls)
+    (hd : execFrom (handleOracle l tls) 9 (.loop dispBody) env0 [] = ⟨envD, .fell, csD⟩)
+    (hlen : Env.read? envD "len(ms.tcpClients)" = some (.int (l.length : Int)))
+    (hsock : Env.read? envD "sock" = some (.int (c : Nat)))
+    (hlast : Env.read? envD "ms.tcpClients[len(ms.tcpClients)-1]" = some (lastVal l))
+    (hslice : Env.read? envD "ms.tcpClients[:len(ms.tcpClients)-1]" =
+      some (.sym "ms.tcpClients[:len(ms.tcpClients)-1]"))
+    (fuel : Nat) (hf : l.length + 13 ≤ fuel) :
+    ∃ env' cnt, exec (handleOracle l tls) fuel hGs env0 =
+        ⟨env', .returned, csD ++ probeCalls "#ms.tcpClients[i]" 0 cnt ++ [("sock.Close", [])]⟩ ∧
+      RemOut l c 0 envD env' cnt := by
+  obtain ⟨g, rfl⟩ : ∃ g, fuel = g + 1 := ⟨fuel - 1, by omega⟩
+  have hd' := execFrom_ge _ hd (fun h => nomatch h) g (by omega)
+  rw [exec_def, hGs_eq', execFrom_seq_of_fell _ _ hd']
+  exact handle_tail l tls c hn envD csD hlen hsock hlast hslice g (by omega)
+
+/-- what the removal part has done, `cnt` = number of indexes inspected (probes of the removal
+    loop); `writes "ms.tcpClients[i]"` counts the one probe of the `switch` wrapper, the `cnt`
+    probes of the removal loop and the real assignments (one, or none) -/
+def Removed (l : List ConnId) (c : ConnId) (env : Env) (cnt : Nat) : Prop :=
+  match l.findIdx? (· == c) with
+  | some p =>
+    cnt = p + 1 ∧ Env.read? env "i" = some (.int (p : Int)) ∧
+      Env.read? env "ms.tcpClients[i]" = some (lastVal l) ∧
+      Env.read? env "ms.tcpClients" = some (.sym "ms.tcpClients[:len(ms.tcpClients)-1]") ∧
+      writes "ms.tcpClients" env = 1 ∧ writes "ms.tcpClients[i]" env = (1 + cnt) + 1
+  | none =>
+    cnt = l.length + 1 ∧ Env.read? env "i" = some (.int (l.length : Int)) ∧
+      Env.read? env "ms.tcpClients" = none ∧
+      writes "ms.tcpClients" env = 0 ∧ writes "ms.tcpClients[i]" env = 1 + cnt
+
+theorem handle_final (l : List ConnId) (tls : List Val) (c : ConnId) (hn : l.length < 2^62)
+    (env0 envD : Env) (csD : Calls)
+    (hd : execFrom (handleOracle l tls) 9 (.loop dispBody) env0 [] = ⟨envD, .fell, csD⟩)
+    (hlen : Env.read? envD "len(ms.tcpClients)" = some (.int (l.length : Int)))
+    (hsock : Env.read? envD "sock" = some (.int (c : Nat)))
+    (hlast : Env.read? envD "ms.tcpClients[len(ms.tcpClients)-1]" = some (lastVal l))
+    (hslice : Env.read? envD "ms.tcpClients[:len(ms.tcpClients)-1]" =
+      some (.sym "ms.tcpClients[:len(ms.tcpClients)-1]"))
+    (hfield : Env.read? envD "ms.tcpClients" = none)
+    (hw1 : writes "ms.tcpClients" envD = 0) (hw2 : writes "ms.tcpClients[i]" envD = 1)
+    (fuel : Nat) (hf : l.length + 13 ≤ fuel) :
+    ∃ env' cnt, exec (handleOracle l tls) fuel hGs env0 =
+        ⟨env', .returned, csD ++ probeCalls "#ms.tcpClients[i]" 0 cnt ++ [("sock.Close", [])]⟩ ∧
+      Removed l c env' cnt ∧ clientsAfter l env' = some (swapRemove l c) := by
+  obtain ⟨env', cnt, hrun, hout⟩ :=
+    handle_compose l tls c hn env0 envD csD hd hlen hsock hlast hslice fuel hf
+  refine ⟨env', cnt, hrun, ?_, clientsAfter_of_RemOut l c envD env' cnt hfield hout⟩
+  revert hout
+  simp only [RemOut, Removed, hfield, hw1, hw2]
+  cases l.findIdx? (· == c) with
+  | none =>
+    rintro ⟨h1, h2, h3, h4, h5⟩
+    exact ⟨by omega, h2, h3, h4, by omega⟩
+  | some p =>
+    rintro ⟨h0, h1, h2, h3, h4, h5, h6⟩
+    exact ⟨by omega, h2, h3, h4, by omega, by omega⟩
 
 end Modbus.GoEval
